@@ -9,7 +9,15 @@
   Quantifiers: every heap (finite, arbitrary sharing and cycles), every limits (the budget may or may not be hit),
   every list of frames, every list of watch / log / capture values (incl. values already in the frame).
 
-  Objects whose inspection raises are inside the domain: the guards of the code (C06) make every heap benign.
+  Objects whose inspection raises are inside the domain as far as the source GUARDS the probe (C06): those guards make every
+  `Heap` benign — a search over a `Heap` can not be left by an exception.  DOMAIN BOUNDARY of every closure theorem here: no
+  search of the action ABORTS.  The real collector can abort a search (an unguarded probe raises: `str(v)` raising a
+  BaseException, `type(v).__name__` raising through a metaclass — the open finding C06/unguarded-type-name-and-text-methods);
+  `Model/CollectorAbort.lean` adds that outcome (`collectA`, oracle `Aborts`).  `collectA` with no abort IS `collect`
+  (`collectA_noAbort`), so the theorems below are statements about `collectA` under the named hypothesis `NoAbortedSearch`
+  (`c07_dangling_unless_aborted`); without it closure fails in a SECOND way (`c07_aborted_watch_witness`, known finding
+  C07/aborted-watch-leaves-ids): an aborted watch / log field is reported as an error and its table dropped, but the ids it
+  handed out stay in the identity cache.
 
   `c07_dangling_only_locals` is what the check's known-finding predicate rests on: on a case that binds a frame's locals dict
   to a name or watch, the only objection the identity oracle may have is a dangling reference made for the locals dict of a
@@ -23,6 +31,7 @@ import DeepModel.Proofs.CollectorBenign
 import DeepModel.Proofs.CollectorExamples
 import DeepModel.Proofs.CollectorDangling
 import DeepModel.Proofs.CollectorDeferred
+import DeepModel.Proofs.CollectorAbort
 
 namespace C07
 open Heap Collector Extracted.Collector
@@ -155,19 +164,25 @@ theorem c07_closed_partial (H : Heap) (a : ActionIn) (s : Snapshot)
       subst hwv
       exact h3 w hw v hv
 
-/-- **closed, exactly what the code does** — NO hypothesis: for every heap, limits, frames (any number, any frame type /
-    time-budget selection) and watch / log / capture values, every reference of a finished snapshot — on any frame, as a
-    child of any entry, as a result — resolves to an entry of the snapshot's table, with ONE exception: a reference made for
-    the locals dict of a collected frame (the pseudo-entry the unwrap step deletes; known finding
-    `C07/locals-dict-self-reference`).  `c07_closed_partial` is the special case in which no such reference can arise. -/
+/-- **closed, except for references to a collected frame's namespace** — no hypothesis on the `Heap` (whose searches cannot
+    abort: see the file header; the statement with that hypothesis spelled out is `c07_dangling_unless_aborted`): for every
+    heap, limits, frames (any number, any frame type / time-budget selection) and watch / log / capture values, every
+    reference of a finished snapshot — on any frame, as a child of any entry, as a result — resolves to an entry of the
+    snapshot's table, unless it was made for the `f_locals` dict of a COLLECTED frame (the pseudo-entry the unwrap step
+    deletes).  That is wider than `l = locals()`: any path to any collected frame's namespace — a callee handed its caller's
+    `locals()`, or `g = globals()` in a function called from module level with frame_type all_frame (a module frame's
+    `f_locals` IS its globals dict).  Known finding `C07/locals-dict-self-reference` covers all of these.
+    `c07_closed_partial` is the special case in which no such reference can arise. -/
 theorem c07_dangling_only_locals (H : Heap) (a : ActionIn) (s : Snapshot) (h : collect H a = .ok s) :
     ∀ r ∈ snapRefs s, r.2 ∈ s.table.map (·.vid) ∨ r.1 ∈ localsOf a.frames := by
   have f := collect_facts h
   intro r hr
   exact collect_cov h r (mem_snapRefs f r hr)
 
-/-- hence: a snapshot none of whose references was made for a collected frame's locals dict is closed — a condition on
-    the SNAPSHOT (checkable on the observation), weaker than `NoRef` (a condition on the whole heap, reachable or not). -/
+/-- corollary: a snapshot none of whose references was made for a collected frame's locals dict is closed — a condition on
+    the references of the snapshot (`r.1` is the ghost object of the model's `VarId`: on the real code it is checkable only
+    with the recorder's identity map, which is how the harness uses it), weaker than `NoRef` (a condition on the whole heap,
+    reachable or not). -/
 theorem c07_closed_of_no_locals_ref (H : Heap) (a : ActionIn) (s : Snapshot) (h : collect H a = .ok s)
     (hno : ∀ r ∈ snapRefs s, r.1 ∉ localsOf a.frames) : ∀ r ∈ snapRefs s, r.2 ∈ s.table.map (·.vid) := by
   intro r hr
@@ -179,6 +194,39 @@ theorem c07_closed_of_no_locals_ref (H : Heap) (a : ActionIn) (s : Snapshot) (h 
 example : (match collect Ex.localsSelf ⟨⟨40, 1024, 10, 5⟩, Ex.frame0, []⟩ with
     | .ok s => decide (((0 : ObjId), (1 : Nat)) ∈ snapRefs s ∧ (1 : Nat) ∉ s.table.map (·.vid))
     | .failed _ => false) = true ∧ (0 : ObjId) ∈ localsOf Ex.frame0 := by decide
+
+/-! ### searches that abort -/
+
+/-- **the same, with the domain spelled out** — in the model where an unguarded probe may raise on some objects (`ab`):
+    under the named hypothesis `NoAbortedSearch ab` every reference resolves unless made for a collected frame's locals dict. -/
+theorem c07_dangling_unless_aborted (H : Heap) (ab : Aborts) (a : ActionIn) (s : Snapshot) (hna : NoAbortedSearch ab)
+    (h : collectA H ab a = .ok s) : ∀ r ∈ snapRefs s, r.2 ∈ s.table.map (·.vid) ∨ r.1 ∈ localsOf a.frames := by
+  rw [collectA_noAbort hna] at h
+  exact c07_dangling_only_locals H a s h
+
+/-- `SH = "shared"`, `BAD` = an object on which an unguarded probe raises "stop"; no frame variables; watches
+    `[SH, BAD]`, `SH`, `[SH]` -/
+def Ex.abortHeap : Heap :=
+  ⟨[Ex.dictOf [], Ex.scalar "str" "shared", Ex.scalar "Bad" "?", Ex.listOf [1, 2], Ex.listOf [1]]⟩
+def Ex.abortOn : Aborts := fun o => if o = 2 then some "stop" else none
+def Ex.abortAction : ActionIn :=
+  ⟨⟨40, 1024, 10, 5⟩, [], [⟨.watch, "[SH, BAD]", 3⟩, ⟨.watch, "SH", 1⟩, ⟨.watch, "[SH]", 4⟩]⟩
+
+/-- witness: **the hypothesis is needed** (known finding `C07/aborted-watch-leaves-ids`).  The first watch aborts at `BAD`:
+    error result "stop", its table (entries 1 and 2) is dropped, ids 1–3 stay in the cache.  The second watch `SH` is a
+    cache hit: a result with id 2 and no entry; the third records `[SH]` under id 4 whose child refers to id 2 as well.  No
+    locals dict is involved (no frame is collected). -/
+theorem c07_aborted_watch_witness :
+    (match collectA Ex.abortHeap Ex.abortOn Ex.abortAction with
+      | .ok s => (s.watches.map (fun w => (w.hasResult, w.vid, w.error)), s.table.map (·.vid),
+                  decide (((1 : ObjId), (2 : Nat)) ∈ snapRefs s))
+      | .failed _ => ([], [], false)) =
+      ([(false, none, some "stop"), (true, some 2, none), (true, some 4, none)], [4], true) ∧
+    localsOf Ex.abortAction.frames = [] ∧ ¬ NoAbortedSearch Ex.abortOn := by
+  refine ⟨by decide, by decide, ?_⟩
+  intro h
+  have := h 2
+  simp [Ex.abortOn] at this
 
 /-- **results have an id** (D10 and its sibling for captured values) — a watch, log-field or capture result that is
     attached (not an error) carries an id: when the budget is exhausted before the value is recorded the result is an
